@@ -11,8 +11,9 @@
 (*   Agrees      the verdict differs from exhaustive search (evaluated when 2^nv is affordable;  *)
 (*               S proves on the small scope that the two certificate clauses imply it)         *)
 (*   Terminates  the call did not return within the bound AND the I-model of the code that is   *)
-(*               present (C15_SatAlgo, Dedup = e.dedup) closes a loop from this very CNF         *)
-(*               (verdict rule 5); a time-out the model does not explain is only a divergence   *)
+(*               present (C15_SatAlgo, Dedup = e.dedup) closes a loop from this very CNF, or the *)
+(*               run itself was observed to repeat the identical conflict round (verdict rule 5);*)
+(*               a time-out with neither explanation is only a divergence (SUSPECT)              *)
 EXTENDS C15_SatAlgo, TraceLib
 
 BruteSat == 6       \* exhaustive search on "sat" verdicts up to this many variables (implied by Satisfies anyway)
@@ -36,8 +37,19 @@ Small(e) == e.nv <= 4 /\ Len(e.cnf) <= 6
 ModelLoops(e) == LET s0 == Start(e.cnf, 0, e.dedup) IN
                  LoopRun(s0, e.order, 1500) \/ (Small(e) /\ LoopSearch({s0}, {s0}, 400))
 
+\* ---- or did the run itself cycle?  The driver records what the last three calls of `backtrack` did (run-time
+\* observation, no source change): conflict clause, learned clause, trail after the back-jump, level returned.  Three
+\* identical rounds: the round starts from the same trail, finds the same conflict, learns a clause that is already
+\* there and returns to the same trail -- by the argument of I's Progress (the scan is a function of the trail and of
+\* the clause list, to which equal clauses are only appended) the round repeats for ever.
+TailEq(a, b) == a.cid = b.cid /\ LitSet(a.learned) = LitSet(b.learned) /\ a.asg = b.asg /\ a.ret = b.ret
+ObservedLoop(e) == /\ Len(e.tail) >= 3
+                   /\ e.tail[3].ret >= 0
+                   /\ TailEq(e.tail[1], e.tail[2]) /\ TailEq(e.tail[2], e.tail[3])
+Explained(e) == e.verdict = "timeout" /\ (ObservedLoop(e) \/ ModelLoops(e))
+
 Returned(e) == e.verdict \in {"sat", "unsat"}
-\* ml : ModelLoops(e), evaluated once per time-out event
+\* ml : Explained(e), evaluated once per event
 ClausesM(e, ml) ==
   IF e.verdict = "sat" THEN
        (IF AsgFunctional(e.assignment) /\ AsgSatisfies(e.cnf, e.assignment) THEN {} ELSE {"Satisfies"})
@@ -47,13 +59,13 @@ ClausesM(e, ml) ==
        \cup (IF e.nv <= BruteUnsat /\ Satisfiable(e.cnf) THEN {"Agrees"} ELSE {})
   ELSE IF e.verdict = "timeout" THEN (IF ml THEN {"Terminates"} ELSE {})
   ELSE {"Returns"}
-Clauses(e) == ClausesM(e, e.verdict = "timeout" /\ ModelLoops(e))
+Clauses(e) == ClausesM(e, Explained(e))
 \* non-trivial: a certificate was really replayed / checked, or a time-out was explained
-Nontrivial(e) == Returned(e) \/ (e.verdict = "timeout" /\ ModelLoops(e))
-\* divergence: a time-out that the model of the code does not explain (SUSPECT, never a failure)
-Diverges(e) == e.verdict = "timeout" /\ ~ModelLoops(e)
+Nontrivial(e) == Returned(e) \/ Explained(e)
+\* divergence: a time-out that neither the model of the code nor the observed rounds explain (SUSPECT, never a failure)
+Diverges(e) == e.verdict = "timeout" /\ ~Explained(e)
 TNext == LET e == Trace[l]
-             ml == e.verdict = "timeout" /\ ModelLoops(e) IN
+             ml == Explained(e) IN
          TStep(e.tid, ClausesM(e, ml), Returned(e) \/ ml, e.verdict = "timeout" /\ ~ml)
 TSpec == TInit /\ [][TNext]_l
 =============================================================================
